@@ -83,12 +83,16 @@ def client_lines(rng, cid, addr, port, serial, services):
     if rng.random() < 0.2:
         lines.append("%d H" % cid)
     for name, p in services:
-        if rng.random() < 0.85:
+        if rng.random() < 0.06:
+            # an over-long text: the daemon has to cut it, whatever it writes must still be one valid message
+            big = "".join(rng.choice("abcdefghij klmnop%:") for _ in range(rng.choice([900, 1010, 1024, 1100, 3000])))
+            lines.append("-1 X %s %s :%s %s" % (name, tag, rng.choice(["NO", "AGAIN", "MORE", "OK"]), big))
+        elif rng.random() < 0.85:
             lines.append("-1 X %s %s :%s" % (name, tag, gen.reply_text(rng, rng.choice(["OK", "OKacct", "NO", "AGAIN", "MORE", "junk", "OK"]))))
         elif rng.random() < 0.5:
             lines.append("-1 x %s %s :Server not online" % (name, tag))
     if rng.random() < 0.3:
-        lines.append("%d P :%s" % (cid, f.token()))
+        lines.append("%d P :%s" % (cid, f.token() if rng.random() < 0.9 else "x" * rng.choice([1000, 1020, 1100, 2000])))
     lines.append(rng.choice(["%d H" % cid, "%d D" % cid, "%d T" % cid, "%d H" % cid]))
     return lines
 
@@ -148,7 +152,10 @@ def _worker(a):
             k = len(lines) // 3
             chunks = [lines[:k], lines[k:2 * k], lines[2 * k:]]
         for ci, ch in enumerate(chunks):
-            d.raw(("\n".join(ch) + "\n").encode("latin-1"))
+            try:
+                d.raw(("\n".join(ch) + "\n").encode("latin-1"))
+            except (daemon.Died, BrokenPipeError, OSError):
+                break
             if ci + 1 < len(chunks):
                 time.sleep(0.05)
                 kind = rng.choice(["broken", "typed", "same", "logs-change", "missing"])
@@ -217,7 +224,7 @@ def _worker(a):
         viol.append(("no-banner", "no-banner", "no version banner on stdout"))
     wit = {"config": conf, "input": lines, "logs": li, "seed": seed}
     return {"viol": [(r_, s_, t_, wit) for (r_, s_, t_) in viol[:4]], "stats": stats, "inconc": [], "hash": vcommon.h([seed, li, lines[:50]]),
-            "nontrivial": stats["client_lines"] > 0, "sample": lines[:25] + ["..."] + out_lines[:25]}
+            "nontrivial": stats["client_lines"] > 0, "sample": [l[:200] for l in lines[:25]] + ["..."] + [l[:200] for l in out_lines[:25]]}
 
 
 def run(chk, tier, scale=1.0):
